@@ -474,9 +474,12 @@ class Sib:
                 raise AnalysisError(f"wave_function_auto.{meth}: no value returned")
             if not (r.op == "call" and r.args[0].op == "attr" and r.args[0].args[1] == "_calc_overlap"):
                 raise AnalysisError(f"wave_function_auto.{meth}: does not end in self._calc_overlap(up, dn, wave_data)")
-            pos = call_parts(r)[1]
-            if len(pos) < 2:
-                raise AnalysisError(f"wave_function_auto.{meth}: unmodelled _calc_overlap call")
+            b_ = plain.call_binding(r, e.frame, cls=W + "wave_function_auto")
+            if b_ is None or "walker_up" not in b_ or "walker_dn" not in b_:
+                self.ctx.rep.note(f"wave_function_auto.{meth}: the final _calc_overlap call does not bind to "
+                                  f"(walker_up, walker_dn, ..); the mirror rule does not apply")
+                continue
+            pos = [b_["walker_up"], b_["walker_dn"]]
             h1 = sym("h1")
             sw = swap_map([(sym("walker_up"), sym("walker_dn")), (getitem(h1, const(0)), getitem(h1, const(1)))])
             self.cmp("SYM-1", f"wave_function_auto.{meth}: the rotated down-spin walker mirrors the rotated up-spin one",
@@ -486,8 +489,13 @@ class Sib:
             if not (rr.op == "call" and rr.args[0].op == "attr" and rr.args[0].args[1] == "_calc_overlap_restricted"):
                 raise AnalysisError(f"wave_function_auto.{meth}_restricted: does not end in _calc_overlap_restricted")
             hyp_u = {sym("walker_up"): sym("walker"), getitem(h1, const(0)): h1}
+            br_ = plain.call_binding(rr, er.frame, cls=W + "wave_function_auto")
+            if br_ is None or "walker" not in br_:
+                self.ctx.rep.note(f"wave_function_auto.{meth}_restricted: the final call does not bind a `walker`; "
+                                  f"the same-rotation rule does not apply")
+                continue
             self.cmp("SIB-2", f"wave_function_auto.{meth}: same rotation as {meth}_restricted",
-                     call_parts(rr)[1][0], pos[0], e.fi, None, hyp_b=hyp_u,
+                     br_["walker"], pos[0], e.fi, None, hyp_b=hyp_u,
                      what="walker_up -> walker, h1[0] -> h1")
 
     def force_bias_is_coulomb_trace(self):
@@ -763,13 +771,19 @@ def restricted_default(ctx, which: str):
     R = strip_wrappers(ev.result(fr))
     ok, why = False, "default restricted entry point does not delegate to the unrestricted one"
     if R.op == "call" and R.args[0].op == "attr" and R.args[0].args[1] == f"_calc_{which}":
-        _, pos, _ = call_parts(R)
+        # arguments by the parameter they bind to (walker_up / walker_dn are the names of the class's internal API;
+        # where they stand in the signature is not fixed)
+        b = ev.call_binding(R, fr, cls="wavefunctions.wave_function")
         w = sym("walker")
         sl = lambda n: getitem(w, mk("tuple", mk("slice", NONE, NONE, NONE), mk("slice", NONE, n, NONE)))
-        rest = [sym(prm.name) for prm in fi.params if prm.name not in ("self", "walker")]
-        ok = len(pos) == 2 + len(rest) and pos[0] is sl(nelec(0)) and pos[1] is sl(nelec(1)) and \
-            all(a is b for a, b in zip(pos[2:], rest))
+        rest = [prm.name for prm in fi.params if prm.name not in ("self", "walker")]
+        if b is None or "walker_up" not in b or "walker_dn" not in b:
+            ctx.rep.note(f"wave_function._calc_{which}_restricted: the delegated call does not bind to (walker_up, walker_dn, ..); "
+                         f"the spin-block rule does not apply")
+            return
+        ok = b["walker_up"] is sl(nelec(0)) and b["walker_dn"] is sl(nelec(1)) and \
+            all(b.get(n_) is sym(n_) for n_ in rest)
         why = "up = walker[:, :nelec[0]], dn = walker[:, :nelec[1]], remaining arguments forwarded" if ok \
-            else f"delegates with {[show(x, maxdepth=3) for x in pos]}"
+            else f"delegates with {[(k_, show(x, maxdepth=3)) for k_, x in b.items()]}"
     ctx.ob("PAIR-1", f"wave_function._calc_{which}_restricted: spin blocks sliced with their own electron count",
            ok, why, fi)
